@@ -7,6 +7,7 @@ import (
 	"os"
 	"os/exec"
 	"path/filepath"
+	"runtime/pprof"
 	"sort"
 	"strconv"
 	"strings"
@@ -91,6 +92,12 @@ func child(id, tier string) int {
 		return 2
 	}
 	c := mon.NewCtx(id, tier, seed())
+	if pf := os.Getenv("VERIF_PROF"); pf != "" {
+		if f, err := os.Create(pf); err == nil {
+			pprof.StartCPUProfile(f)
+			defer pprof.StopCPUProfile()
+		}
+	}
 	c.OpenJournal()
 	m.Run(c)
 	code := c.Finish()
